@@ -290,6 +290,27 @@ func runC10(w *World) *Result {
 					r.Ok("R-C10-names", key, "-", "user function names are not emitted verbatim")
 				}
 			}
+			// programs run with @name(...) are looked up in the same command namespace as the
+			// functions of the script: a user function that is given the program's name shadows it
+			appBare := false
+			for _, l := range b.LinesOf("AppCall") {
+				if l.Bash == nil {
+					continue
+				}
+				for _, h := range l.Bash.Holes {
+					if strings.Contains(h.Origin, "Name()") && h.IsCmdWord {
+						appBare = true
+					}
+				}
+			}
+			if appBare {
+				key := "name:bash:cmd:<program>"
+				if userFuncVerbatim {
+					r.Bad("R-C10-names", key, "-", "a program run with @name(...) and a user function share the command namespace: a function that is (re)named like the program is called instead of it")
+				} else {
+					r.Ok("R-C10-names", key, "-", "user function names are not emitted verbatim")
+				}
+			}
 			for _, env := range []string{"PATH", "IFS"} {
 				key := "name:bash:env:" + env
 				if disjointScheme {
